@@ -85,6 +85,25 @@ R6={
 for _k,_add in R6.items():
     _a,_b,_c=BUILT[_k]
     BUILT[_k]=(_a,_b+" "+_add,_c)
+R7={
+ "C01":"Descriptor::satisfy writes what get_satisfaction returns. Scripts exactly on push / compact-size boundaries (75/76, 252/253, 255/256 bytes); every hash kind.",
+ "C02":"PSBT completeness under every transaction parameter set of C14.",
+ "C03":"Guarded fragments over the legacy universe.",
+ "C05":"A panic of a rule function, of from_ast or of Debug on well-formed children is a violation.",
+ "C08":"A branch with two locks of one unit next to a branch locked in the other unit under five odds.",
+ "C09":"Scripts exactly on push / compact-size boundaries (75/76, 252/253, 255/256 bytes) in sh, wsh, sh-wsh and tr.",
+ "C10":"Key-expression mixes (7 kinds x key positions of 10 templates) through Descriptor::from_str, parse_descriptor and the miniscript parsers; wrapper types' own text forms.",
+ "C11":"Planner over the shared descriptor families x asset subsets (builder API) in the contained workers; hang verdicts from CPU time with positive controls of the containment.",
+ "C14":"By-value and free finalize functions agree with the in-place ones; an outpoint index the funding transaction lacks; preimages of every hash kind.",
+ "C15":"A fifth build through from_str and parse_descriptor of the printed concrete descriptor; leaves of every hash kind.",
+ "C16":"sortedmulti constructors, taproot accessors, multipath key predicates and per-key splits.",
+ "C17":"The announced sizes are not smaller than the real ones (also on the size-boundary family); assets assembled through the builder API equal the same assets written as fields.",
+ "C19":"partial_cmp equals cmp; one structure reached by five construction routes over concrete keys is one value.",
+ "C20":"decode + substitute_raw_pkh over concrete keys equals the direct build (structure, type, figures); translation to definite keys gives the figures of the same raw keys; branches / contains_raw_pkh / iter.",
+}
+for _k,_add in R7.items():
+    _a,_b,_c=BUILT[_k]
+    BUILT[_k]=(_a,_b+" "+_add,_c)
 NA_REASON={}
 
 def hooks_commits():
